@@ -548,17 +548,30 @@ def gen_tree(rng, depth, big=True, allow_rand=True, name="n", force=True):
 MUTATIONS = ["ov1", "ovk", "same", "touch", "nest", "out1", "exact", "outk", "neg", "shuffle"]
 
 
-def mutate(rng, desc):
+def _replace_offsets(real, desc, before) -> bool:
+    """Assign the offsets that changed in the description to the images of the already built tree (matched by name)."""
+    kids = {c.name: c for c in real.sub_images}
+    if len(kids) != len(real.sub_images) or set(kids) != {c["name"] for c in desc["children"]}:
+        return False
+    for c in desc["children"]:
+        if before.get(id(c)) != c["offset"]:
+            kids[c["name"]].offset = c["offset"]
+        if not _replace_offsets(kids[c["name"]], c, before):
+            return False
+    return True
+
+
+def mutate(rng, desc, offsets_only=False):
     """Change the layout at one random inner node; the reference decides what the result is.  Returns the mutation name."""
     inner = [m for _, m in R.walk(desc) if m["children"]]
     if not inner:
         return "none"
     m = core.pick(rng, inner)
     kids = sorted(m["children"], key=lambda c: c["offset"])
-    mut = core.pick(rng, MUTATIONS)
+    mut = core.pick(rng, [x for x in MUTATIONS if x not in ("out1", "exact", "outk")] if offsets_only else MUTATIONS)
     j = rng.randrange(len(kids) - 1) if len(kids) > 1 else None
     if mut in ("ov1", "ovk", "same", "touch", "nest") and j is None:
-        mut = core.pick(rng, ["out1", "exact", "outk", "neg"])
+        mut = "neg" if offsets_only else core.pick(rng, ["out1", "exact", "outk", "neg"])
     if mut == "ov1":
         kids[j + 1]["offset"] = kids[j]["offset"] + R.length(kids[j]) - 1
     elif mut == "ovk":
@@ -627,13 +640,27 @@ def run_trees(case, ctx):
         desc = gen_tree(rng, depth, big=depth <= 3 or rng.random() < 0.5)
         mode = rng.random()
         mut = "none"
+        real = None
         if mode < 0.55 and depth > 1:
-            mut = mutate(rng, desc)
-            if rng.random() < 0.2:
-                mut += "+" + mutate(rng, desc)
+            if rng.random() < 0.3:
+                # the tree is built first and an image is RE-PLACED afterwards (its offset attribute is assigned): the
+                # order of the child list no longer follows the offsets; validation and export go by the offsets
+                real = build(desc, rng)
+                before = {id(m): m["offset"] for _, m in R.walk(desc)}
+                mut = mutate(rng, desc, offsets_only=True)
+                if not _replace_offsets(real, desc, before):
+                    real = None
+                else:
+                    mut = "late-" + mut
+                    ctx.count("images_replaced_after_building")
+            else:
+                mut = mutate(rng, desc)
+                if rng.random() < 0.2:
+                    mut += "+" + mutate(rng, desc)
         elif mode > 0.96:
             gen_degenerate(rng, desc)
-        real = build(desc, rng)
+        if real is None:
+            real = build(desc, rng)
         judge_tree(ctx, desc, real, "tree", sig_extra=[mut.split("+")[0]])
 
 
